@@ -241,7 +241,7 @@ pub fn run(outdir: &Path, tier: &str, seed: u64, shards: usize, replay: Option<S
         let v: Value = serde_json::from_str(&std::fs::read_to_string(rp).unwrap()).unwrap();
         programs.push((serde_json::from_value(v["case"]["program"].clone()).unwrap(), v["case"]["expect_ok"].as_bool().unwrap_or(false)));
     } else {
-        for p in crate::c01dir::snake_case_types().into_iter().chain(crate::c01dir::deprecated_subtree()) {
+        for p in crate::c01dir::snake_case_types().into_iter().chain(crate::c01dir::deprecated_subtree()).chain(crate::c01dir::explicit_builtin_scalars()) {
             programs.push((p, true));
         }
         for p in crate::c01dir::directed() {
